@@ -268,7 +268,10 @@ Error RACFGBuilder::on_instruction(InstNode* inst, InstControlFlow& control_type
               }
             }
 
-            ASMJIT_PROPAGATE(ib.add(work_reg, flags, use_regs, use_id, use_rewrite_mask, out_regs, out_id, out_rewrite_mask, op_rw_info.rm_size(), consecutive_parent));
+            // Only registers that are part of the sequence follow `consecutive_parent` (the lead has no parent yet).
+            RAWorkReg* parent_reg = Support::test(flags, RATiedFlags::kUseConsecutive | RATiedFlags::kOutConsecutive) ? consecutive_parent : nullptr;
+
+            ASMJIT_PROPAGATE(ib.add(work_reg, flags, use_regs, use_id, use_rewrite_mask, out_regs, out_id, out_rewrite_mask, op_rw_info.rm_size(), parent_reg));
             if (single_reg_ops == i) {
               single_reg_ops++;
             }
